@@ -1,10 +1,68 @@
-(* C12 — placeholder while the proofs are being written *)
-From Coq Require Import List ZArith.
-From GV Require Import Lib.Tree Model.DrawSet Model.Mcmc.
+(* C12 — MCMC rewiring only creates pairings the target allows; the acceptance rule is the
+   Metropolis rule of the target.  Property theorems only (lemmas in Proofs/McmcP.v).
+   Reading (DESIGN C12): a target matrix is a mixing matrix, i.e. symmetric; the code tests the
+   focal-vertex-first orientation of a pairing. *)
+From Coq Require Import List ZArith QArith Bool Arith Permutation.
+From GV Require Import Lib.Tree Model.DrawSet Proofs.DrawSetP Model.Mcmc Proofs.McmcP.
 Import ListNotations.
 
-Theorem C12_default_limits : forall f nodes tg es0,
-  c_slimit (mk_cfg f nodes tg es0 None None) = 25 /\
-  c_climit (mk_cfg f nodes tg es0 None None) = 10 * length es0.
-Proof. intros. split; reflexivity. Qed.
-Print Assumptions C12_default_limits.
+(* the full statement: allowed pairings only (proved below, general) AND the statistical sentence
+   "with a full-support target that differs from the network's mixing, the distance between the
+   network's mixing matrices and the target is smaller after rewiring".  The second half is a
+   statement about the DISTRIBUTION of runs (it is false for individual oracle streams: a stream
+   whose uniforms are all 0 accepts every proposal, whatever it does to the distance), so it has
+   no per-run formulation on the executable model; it is kept here as an opaque parameter of the
+   full statement and is NOT proved. *)
+Definition C12_full (distance_decreases_in_law : Prop) : Prop :=
+  (forall fixed nodes tg es0 sl cl evs,
+     WF (Z.of_nat (length nodes)) es0 -> NonNeg tg ->
+     let C := mk_cfg fixed nodes tg es0 sl cl in
+     let '(r, sf, tr) := rewire C es0 evs in chain_allowed nodes tg es0 (map s_es tr) = true)
+  /\ distance_decreases_in_law.
+
+(* GENERAL: for every clean network, every target with non-negative entries, all limits, every
+   oracle stream and both id rules: between consecutive accepted states every edge that is new
+   has a pairing of positive target weight (and nothing else is created: the new edges are exactly
+   the proposals).  [chain_allowed] is the verified checker c12_check itself, so this is "the
+   model's output satisfies the checker for all valid inputs and all schedules". *)
+Theorem C12_allowed_partial :
+  forall fixed nodes tg es0 sl cl evs,
+    WF (Z.of_nat (length nodes)) es0 -> NonNeg tg ->
+    let C := mk_cfg fixed nodes tg es0 sl cl in
+    let '(r, sf, tr) := rewire C es0 evs in chain_allowed nodes tg es0 (map s_es tr) = true.
+Proof. exact rewire_allowed. Qed.
+Print Assumptions C12_allowed_partial.
+
+(* the swap condition itself: whenever it reaches the Metropolis draw, every proposal edge is an
+   allowed pairing (numerator non-zero => every factor positive) *)
+Theorem C12_swap_condition_allowed :
+  forall fixed nodes tg u0 v0 a0 a1 props top bot,
+    NonNeg tg -> swap_pre fixed nodes tg u0 v0 a0 a1 = PNeed props top bot ->
+    forall p, In p props -> allowed nodes tg p = true.
+Proof. exact swap_pre_allowed. Qed.
+Print Assumptions C12_swap_condition_allowed.
+
+(* an accepted swap creates the proposals and nothing else *)
+Theorem C12_nothing_else_created :
+  forall N es u0 v0 m0 m1 fixed prs nodes tg,
+    WF N es -> (forall p, In p (swap_props u0 v0 fixed prs) -> allowed nodes tg p = true) ->
+    step_allowed nodes tg es (swap_es' es u0 v0 m0 m1 fixed prs) = true.
+Proof. exact created_swap. Qed.
+Print Assumptions C12_nothing_else_created.
+
+(* the checker is the specification: *)
+Theorem C12_checker_iff :
+  forall nodes tg es es',
+    step_allowed nodes tg es es' = true <->
+    forall e, In e es' -> has_edge es (ea e) (eb e) = false -> AllowedP nodes tg e.
+Proof. exact step_allowed_iff. Qed.
+Print Assumptions C12_checker_iff.
+
+(* non-vacuity: the example run of Props/C11.v has a non-negative target and creates edges *)
+Example C12_nonvacuous :
+  let nodes := [[1;1];[0;1];[1;1];[0;1]]%Z in
+  let es := [mkE 0 1 0 0; mkE 2 3 0 1]%Z in
+  let tg := [[([0;1;0;1]%Z, 1#2)]] in
+  step_allowed nodes tg es [mkE 0 3 0 0; mkE 1 2 0 1]%Z = true /\
+  step_allowed nodes [[([0;1;0;1]%Z, 0#1)]] es [mkE 0 3 0 0; mkE 1 2 0 1]%Z = false.
+Proof. vm_compute. split; reflexivity. Qed.
